@@ -1,6 +1,7 @@
 package rules
 
 import (
+	"go/types"
 	"strings"
 
 	"golang.org/x/tools/go/ssa"
@@ -15,10 +16,12 @@ func init() { Registry["C20"] = checkC20 }
 // segmented deques (node boundaries, growth, shrink, restructure) is NOT
 // decided - it needs an inductive invariant, i.e. a proof or an exploration.
 func checkC20(p *core.Prog, r *core.Report) {
-	r.Explanation = "Decides four structural necessary conditions of queue refinement and nothing else: (R1) the per-key wait queue and holder queue serve their inline slice before their overflow structure (ring / scale queue), so a new element may be appended to the inline slice only on a path where the overflow structure is absent or was tested empty - otherwise a newer element is served before older ones; (R2) Pop and PopRight of the three segmented deques (LockQueue, LockCommandQueue, LockManagerQueue) clear the slot they vacate, because Restructuring re-pushes every non-nil slot (a stale slot resurrects a removed element); (R3) Push of the three deques stores at the tail cursor before advancing it and allocates the next node when the cursor reaches the node size; (R4) every read of an element in Pop / PopRight / Head / Tail of the three deques is on the non-empty side of an emptiness test. NOT decided (the bulk of the property): the (node, index) cursor arithmetic across node boundaries, Len, growth / shrink / Resize / Rellac / Restructuring / Reset, iteration, the priority ring's order, stability of the priority queue, holes left by in-place removal. A wrong index computation inside those operations is not seen."
+	r.Explanation = "Decides six structural necessary conditions of queue refinement and nothing else: (R1) the per-key wait queue and holder queue serve their inline slice before their overflow structure (ring / scale queue), so a new element may be appended to the inline slice only on a path where the overflow structure is absent or was tested empty - otherwise a newer element is served before older ones; (R2) Pop and PopRight of the three segmented deques (LockQueue, LockCommandQueue, LockManagerQueue) clear the slot they vacate, because Restructuring re-pushes every non-nil slot (a stale slot resurrects a removed element); (R3) Push of the three deques stores at the tail cursor before advancing it and allocates the next node when the cursor reaches the node size; (R4) every read of an element in Pop / PopRight / Head / Tail of the three deques is on the non-empty side of an emptiness test; (R5) in the slice-and-cursor queues (ring queue, inline part of the wait and holder queues) every path that re-bases the slice also resets the cursor; (R6) the wait queue's overflow field and its mode sentinel (fastIndex < 0 = priority ring) change together. NOT decided (the bulk of the property): the (node, index) cursor arithmetic across node boundaries, Len, growth / shrink / Resize / Rellac / Restructuring / Reset, iteration, the priority ring's order, stability of the priority queue, holes left by in-place removal. A wrong index computation inside those operations is not seen."
 	r.Assumptions = []string{"Go type checker and go/ssa are correct for /repo"}
 	c20R1(p, r)
 	c20R234(p, r)
+	c20R5(p, r)
+	c20R6(p, r)
 }
 
 func c20R1(p *core.Prog, r *core.Report) {
@@ -235,5 +238,249 @@ func c20R234(p *core.Prog, r *core.Report) {
 		if ex.Imprecise != "" {
 			r.Fail("C20/R3 %s: %s", name, ex.Imprecise)
 		}
+	}
+}
+
+// c20R5: the slice-and-cursor queues (a growable slice whose consumed prefix
+// is skipped by an integer cursor: the ring queue, the inline part of the wait
+// queue and of the holder queue). Whenever the slice is re-based - replaced by
+// anything other than an append to itself - the elements move relative to the
+// cursor, so the cursor has to be reset on the same path; a stale cursor skips
+// the oldest live elements for ever (Len under-reports, later arrivals
+// overtake). First creation (slice tested nil on the path) is exempt.
+func c20R5(p *core.Prog, r *core.Report) {
+	const rule = "C20/R5"
+	r.Rule(rule, "in the slice-and-cursor queues every path that re-bases the slice (stores anything but an append to itself) also resets the cursor to 0, unless the slice was nil", 6)
+	type pair struct{ typ, slice, cursor string }
+	pairs := map[pair]bool{}
+	appends := map[string]bool{} // typ.slice that some method appends to
+	fieldLoad := func(v ssa.Value) (base ssa.Value, k core.FieldKey, ok bool) {
+		u, ok1 := v.(*ssa.UnOp)
+		if !ok1 {
+			return nil, core.FieldKey{}, false
+		}
+		fa, ok2 := u.X.(*ssa.FieldAddr)
+		if !ok2 {
+			return nil, core.FieldKey{}, false
+		}
+		return fa.X, core.FieldKeyOf(fa.X.Type(), fa.Field), true
+	}
+	for _, fn := range p.FuncsIn("server") {
+		if fn.Blocks == nil || fn.Signature.Recv() == nil {
+			continue
+		}
+		for _, b := range fn.Blocks {
+			for _, ins := range b.Instrs {
+				switch t := ins.(type) {
+				case *ssa.IndexAddr:
+					b1, ks, ok1 := fieldLoad(t.X)
+					b2, kc, ok2 := fieldLoad(t.Index)
+					if ok1 && ok2 && b1 == b2 && ks.Type == kc.Type {
+						if _, isSlice := t.X.Type().Underlying().(*types.Slice); isSlice {
+							pairs[pair{ks.Type, ks.Field, kc.Field}] = true
+						}
+					}
+				case *ssa.Store:
+					if fa, ok := t.Addr.(*ssa.FieldAddr); ok {
+						if c, ok := t.Val.(*ssa.Call); ok {
+							if bi, ok := c.Common().Value.(*ssa.Builtin); ok && bi.Name() == "append" {
+								if _, k2, ok := fieldLoad(c.Common().Args[0]); ok && k2 == core.FieldKeyOf(fa.X.Type(), fa.Field) {
+									appends[k2.Type+"."+k2.Field] = true
+								}
+							}
+						}
+					}
+				}
+			}
+		}
+	}
+	n := 0
+	for pr := range pairs {
+		if !appends[pr.typ+"."+pr.slice] {
+			continue
+		}
+		short := strings.TrimPrefix(pr.typ, "server.")
+		for _, fn := range p.FuncsIn("server") {
+			if fn.Blocks == nil || p.IsNewFunc(fn) || recvName(fn) != short {
+				continue
+			}
+			stores := false
+			for _, b := range fn.Blocks {
+				for _, ins := range b.Instrs {
+					if st, ok := ins.(*ssa.Store); ok {
+						if k, ok := storeKey(st.Addr); ok && k.Type == pr.typ && k.Field == pr.slice {
+							stores = true
+						}
+					}
+				}
+			}
+			if !stores {
+				continue
+			}
+			self := fn.Params[0].Name()
+			name := core.FuncName(fn)
+			bad := false
+			any := false
+			ex := core.NewExplorer(p, core.Hooks{
+				Track: func(x *core.X, a core.Atom) bool {
+					return strings.Contains(core.Plain(a.String()), self+"."+pr.slice)
+				},
+				Instr: func(x *core.X) {
+					if !x.Top() {
+						return
+					}
+					st, ok := x.Ins.(*ssa.Store)
+					if !ok {
+						return
+					}
+					fa, ok := st.Addr.(*ssa.FieldAddr)
+					if !ok || core.Plain(x.Canon(fa.X).S) != self {
+						return
+					}
+					k := core.FieldKeyOf(fa.X.Type(), fa.Field)
+					if k.Type != pr.typ {
+						return
+					}
+					switch k.Field {
+					case pr.slice:
+						v := core.Plain(x.Canon(st.Val).S)
+						if strings.HasPrefix(v, "append("+self+"."+pr.slice) || strings.HasPrefix(v, "append(append("+self+"."+pr.slice) {
+							return
+						}
+						if x.Get("rebased") == "" {
+							x.Set("rebased", x.Pos())
+						}
+					case pr.cursor:
+						if c, ok := st.Val.(*ssa.Const); ok && c.Value != nil && c.Int64() <= 0 {
+							x.Set("reset", "1")
+						}
+					}
+				},
+				Exit: func(x *core.X, rets []core.Expr) {
+					if x.Get("rebased") == "" {
+						return
+					}
+					any = true
+					if x.Get("reset") == "1" || bad {
+						return
+					}
+					for h := range x.St.Hist {
+						if core.Plain(h) == self+"."+pr.slice+" == nil" {
+							return
+						}
+					}
+					bad = true
+					r.Violate(rule, name+": cursor reset with the re-based "+pr.slice, x.Get("rebased"), "the slice "+pr.slice+" is replaced (not appended to) on a path that leaves the cursor "+pr.cursor+" as it was: the elements moved but the cursor still skips the old consumed prefix, so the oldest live elements are never served and Len under-reports", x.St.Trace)
+				},
+			})
+			ex.Run(fn, nil)
+			if ex.Imprecise != "" {
+				r.Fail("C20/R5 %s: %s", name, ex.Imprecise)
+			}
+			if any {
+				n++
+				if !bad {
+					r.Hold(rule, name+": cursor reset with the re-based "+pr.slice, p.Pos(fn.Pos()), "every re-basing path resets "+pr.cursor)
+				}
+			}
+		}
+	}
+	if n == 0 {
+		r.Fail("C20/R5: no slice-and-cursor queue found")
+	}
+}
+
+// c20R6: the wait queue has two modes told apart by a sentinel: fastIndex < 0
+// means "ringQueue is the priority ring and the inline slice is not used"
+// (Pop / Head / Len / iteration ignore the slice then). The overflow field and
+// the sentinel therefore change together: a path that replaces ringQueue while
+// one is installed must also set fastIndex, otherwise later pushes land in a
+// slice that the readers skip and the elements are lost.
+func c20R6(p *core.Prog, r *core.Report) {
+	const rule = "C20/R6"
+	r.Rule(rule, "LockManagerWaitQueue: a path that replaces an installed ringQueue also stores the mode sentinel fastIndex (first installation, with ringQueue tested nil, is exempt)", 2)
+	n := 0
+	for _, fn := range p.FuncsIn("server") {
+		if fn.Blocks == nil || p.IsNewFunc(fn) || recvName(fn) != "LockManagerWaitQueue" {
+			continue
+		}
+		stores := false
+		for _, b := range fn.Blocks {
+			for _, ins := range b.Instrs {
+				if st, ok := ins.(*ssa.Store); ok {
+					if k, ok := storeKey(st.Addr); ok && k.Type == "server.LockManagerWaitQueue" && k.Field == "ringQueue" {
+						stores = true
+					}
+				}
+			}
+		}
+		if !stores {
+			continue
+		}
+		self := fn.Params[0].Name()
+		name := core.FuncName(fn)
+		bad, any := false, false
+		ex := core.NewExplorer(p, core.Hooks{
+			Track: func(x *core.X, a core.Atom) bool {
+				s := core.Plain(a.String())
+				return strings.Contains(s, self+".ringQueue") || strings.Contains(s, self+".fastIndex")
+			},
+			Instr: func(x *core.X) {
+				if !x.Top() {
+					return
+				}
+				st, ok := x.Ins.(*ssa.Store)
+				if !ok {
+					return
+				}
+				fa, ok := st.Addr.(*ssa.FieldAddr)
+				if !ok || core.Plain(x.Canon(fa.X).S) != self {
+					return
+				}
+				switch core.FieldKeyOf(fa.X.Type(), fa.Field).Field {
+				case "ringQueue":
+					if x.Get("replaced") == "" {
+						x.Set("replaced", x.Pos())
+					}
+				case "fastIndex":
+					if _, ok := st.Val.(*ssa.Const); ok {
+						x.Set("mode", "1")
+					}
+				}
+			},
+			Exit: func(x *core.X, rets []core.Expr) {
+				if x.Get("replaced") == "" {
+					return
+				}
+				any = true
+				if x.Get("mode") == "1" || bad {
+					return
+				}
+				for h := range x.St.Hist {
+					if core.Plain(h) == self+".ringQueue == nil" {
+						return
+					}
+					// FIFO mode established on the path: the sentinel is already right
+					if hp := core.Plain(h); hp == "0 <= "+self+".fastIndex" || hp == "-1 < "+self+".fastIndex" || hp == self+".fastIndex != -1" {
+						return
+					}
+				}
+				bad = true
+				r.Violate(rule, name+": overflow field and mode sentinel change together", x.Get("replaced"), "ringQueue is replaced while one is installed and the mode sentinel fastIndex is left as it was: in priority mode (fastIndex < 0) later pushes go to the inline slice, which Pop / Head / Len ignore - queued requests are lost", x.St.Trace)
+			},
+		})
+		ex.Run(fn, nil)
+		if ex.Imprecise != "" {
+			r.Fail("C20/R6 %s: %s", name, ex.Imprecise)
+		}
+		if any {
+			n++
+			if !bad {
+				r.Hold(rule, name+": overflow field and mode sentinel change together", p.Pos(fn.Pos()), "sentinel stored on every replacing path (or first installation)")
+			}
+		}
+	}
+	if n == 0 {
+		r.Fail("C20/R6: no method of LockManagerWaitQueue stores ringQueue")
 	}
 }
